@@ -9,6 +9,7 @@ package selector
 //@ pure func pyE(b int, n int) int = b == 9223372036854775807 ? n : (b < 0 ? max(n + b, 0) : min(b, n))
 //@
 //@ func resolveSliceIndices
+//@   ensures [C09] total: true
 //@   requires len(slice) == 2 && 0 <= length
 //@   ensures [C12,C09] inrange: 0 <= start && start <= end && end <= length
 //@   ensures [C12] python: pyS(slice[0], length) < pyE(slice[1], length) ==> start == pyS(slice[0], length) && end == pyE(slice[1], length)
